@@ -234,6 +234,13 @@ def check(prop_id, tier, seed, workers=None):
         else:
             unknown.setdefault(sig_of(v), (v.get("case"), v))
 
+    if os.environ.get("XMC_SUMMARY"):
+        cnt = Counter()
+        for c, r in zip(cases, results):
+            for v in r["violations"]:
+                cnt[(v["check"], v["model"], json.dumps(v["features"], sort_keys=True))] += 1
+        for k, n in sorted(cnt.items(), key=lambda kv: (-kv[1], kv[0])):
+            print("SUMMARY %5d  %s %s %s" % ((n,) + k))
     outcomes = Counter(r["outcome"] for r in results)
     nontriv_keys = set()
     for c, r in zip(cases, results):
